@@ -122,6 +122,10 @@ type PathCtx struct {
 	pending []WorkItem
 
 	initTolerated  map[string]bool
+	failedAsserts  int
+	lastWitness    map[int]uint64
+	model          map[int]uint64 // cached assignment satisfying the asserted path condition (nil: none)
+	modelHits      int
 	tokenSeq       int
 	opaqueSeq      int
 	obsTerms       []sym
@@ -157,6 +161,45 @@ func (px *PathCtx) assume(t *Term) {
 	}
 	px.pcs = append(px.pcs, t)
 	px.solver.Assert(px.tc, t)
+	if px.model != nil && !px.holdsInModel(t) {
+		px.model = nil
+	}
+}
+
+// holdsInModel reports whether the cached model is known to satisfy t.
+func (px *PathCtx) holdsInModel(t *Term) bool {
+	if px.model == nil {
+		return false
+	}
+	e := evalCtx{m: px.model, memo: map[int]uint64{}}
+	v, ok := e.eval(t)
+	return ok && v == 1
+}
+
+// checkWitness is check(t) that also refreshes the cached model when the answer is sat.
+func (px *PathCtx) checkWitness(t *Term) SatResult {
+	if px.holdsInModel(t) {
+		px.modelHits++
+		return Sat
+	}
+	var want []*Term
+	for _, v := range px.tc.vars {
+		if v.sort.K != SInt && (v.sort.K != SBV || v.sort.W <= 64) {
+			want = append(want, v)
+		}
+	}
+	r, m := px.solver.CheckModel(px.tc, t, want)
+	if r == Unknown {
+		px.res.Unknowns++
+	}
+	if r == Sat && m != nil {
+		nm := make(map[int]uint64, len(m))
+		for id, v := range m {
+			nm[id] = v.Uint64()
+		}
+		px.lastWitness = nm
+	}
+	return r
 }
 
 func (px *PathCtx) pushAlt(d Decision) {
@@ -194,20 +237,36 @@ func (px *PathCtx) branch(c *Term) bool {
 		px.assume(px.tc.Not(c))
 		return false
 	}
-	r1 := px.check(c)
+	nc := px.tc.Not(c)
+	var r1, r2 SatResult
+	var w1 map[int]uint64
+	if px.holdsInModel(nc) {
+		// the cached model witnesses the false side; only the true side needs the solver
+		px.modelHits++
+		r2 = Sat
+		r1 = px.checkWitness(c)
+		w1 = px.lastWitness
+	} else {
+		r1 = px.checkWitness(c)
+		w1 = px.lastWitness
+		if r1 == Unsat {
+			r2 = Sat // the path condition is satisfiable, so the other side must be
+		} else {
+			r2 = px.check(nc)
+		}
+	}
 	if r1 == Unsat {
 		px.trace = append(px.trace, Decision{'b', 0})
-		px.assume(px.tc.Not(c))
+		px.assume(nc)
 		return false
 	}
-	r2 := px.check(px.tc.Not(c))
-	if r2 == Unsat {
-		px.trace = append(px.trace, Decision{'b', 1})
-		px.assume(c)
-		return true
+	if r2 != Unsat {
+		px.pushAlt(Decision{'b', 0})
 	}
-	px.pushAlt(Decision{'b', 0})
 	px.trace = append(px.trace, Decision{'b', 1})
+	if r1 == Sat && !px.holdsInModel(c) && w1 != nil {
+		px.model = w1
+	}
 	px.assume(c)
 	return true
 }
@@ -368,23 +427,53 @@ func (px *PathCtx) addCandidate(kind, label, msg, site string, extra *Term, stac
 	return true
 }
 
-// assertCond implements verifAssert.
+// replaying reports whether execution is still inside the recorded decision prefix.
+func (px *PathCtx) replaying() bool { return px.pos < len(px.prefix) }
+
+// assertCond implements verifAssert. The outcome of a symbolic assertion is recorded as a decision
+// ('a': 0 = holds or assumed, 1 = fails on every model, not assumed) so that replays of the prefix
+// neither re-query nor re-report it.
 func (px *PathCtx) assertCond(c *Term, label string, site string) {
-	px.res.Asserts++
 	if c.isTrue() {
+		px.res.Asserts++
 		px.res.Discharged++
 		return
 	}
-	neg := px.tc.Not(c)
-	var r SatResult
-	if neg.isTrue() {
-		r = Sat
-	} else {
-		r = px.check(neg)
+	if c.isFalse() {
+		// concrete failure: attribute it to the path that first reaches it
+		if px.replaying() {
+			return
+		}
+		px.res.Asserts++
+		if !px.addCandidate("assert", label, "assertion fails", site, nil, nil) {
+			px.abort(stInconclusive, "could not obtain model for failing assertion %q", label)
+		}
+		px.failedAsserts++
+		if px.failedAsserts > 50 {
+			px.abort(stViolatedAlways, "more than 50 failing assertions on this path (last %q)", label)
+		}
+		return
 	}
+	if px.replaying() {
+		d := px.prefix[px.pos]
+		px.pos++
+		if d.K != 'a' {
+			px.abort(stEngineBug, "replay divergence: expected assertion record, trace has %v", d)
+		}
+		px.trace = append(px.trace, d)
+		if d.V == 0 {
+			px.assume(c)
+		}
+		return
+	}
+	px.res.Asserts++
+	neg := px.tc.Not(c)
+	r := px.check(neg)
 	switch r {
 	case Unsat:
 		px.res.Discharged++
+		px.trace = append(px.trace, Decision{'a', 0})
+		px.assume(c)
 		return
 	case Unknown:
 		px.abort(stInconclusive, "solver unknown on assertion %q", label)
@@ -392,10 +481,17 @@ func (px *PathCtx) assertCond(c *Term, label string, site string) {
 	if !px.addCandidate("assert", label, "assertion can fail", site, neg, nil) {
 		px.abort(stInconclusive, "could not obtain model for failing assertion %q", label)
 	}
-	// continue on the models where it holds
-	if c.isFalse() || px.check(c) == Unsat {
-		px.abort(stViolatedAlways, "assertion %q fails on every model of this path", label)
+	// continue: on the models where it holds when there are any, otherwise unconstrained (so that
+	// different violations behind a known one are still reached)
+	px.failedAsserts++
+	if px.failedAsserts > 50 {
+		px.abort(stViolatedAlways, "more than 50 failing assertions on this path (last %q)", label)
 	}
+	if px.check(c) == Unsat {
+		px.trace = append(px.trace, Decision{'a', 1})
+		return
+	}
+	px.trace = append(px.trace, Decision{'a', 0})
 	px.assume(c)
 }
 
